@@ -669,12 +669,14 @@ def run_instance(inst, tier='quick', seed=0, replay_dir=None, prefix=None, first
                 sp = B.sp
                 fails = []
                 # ---- obligations of this path
+                hints = []
+                if out[0] == 'ok' and inst.hints:
+                    hints = list(inst.hints(sp, inp, out[1]))
                 for (oname, plen, f, where) in c.oblig:
-                    fl = decide(c, B, 'defined:%s@%s' % (oname, _short(where)), f, plen, [], 'definedness')
+                    fl = decide(c, B, 'defined:%s@%s' % (oname, _short(where)), f, plen, hints, 'definedness')
                     if fl:
                         fails.append(fl)
                 if out[0] == 'ok':
-                    hints = list(inst.hints(sp, inp, out[1])) if inst.hints else []
                     for name, goal in inst.ensures(sp, inp, out[1]):
                         goal = sp._f(goal)
                         fl = decide(c, B, name, goal, None, hints, 'ensures')
